@@ -59,6 +59,10 @@ class H(explore.Harness):
         self.partial = None  # (conn, rest bytes)
         self.closed_conns = set()
         self.abandon_marks = []
+        self.app_closed = False
+        self.req_time = {}
+        self.expect_ok = {}
+        self.secure_frames = 2
         if self.secure:
             from vt.env.iprig import IpRig
 
@@ -111,7 +115,7 @@ class H(explore.Harness):
 
     def _wire(self, c, plain):
         if self.secure:
-            return c.session.respond(plain)
+            return c.session.respond(plain, sizes=[max(1, len(plain) // 2)])  # two (or three) encrypted blocks per message
         return plain
 
     def _cur(self):
@@ -121,6 +125,10 @@ class H(explore.Harness):
             if c.transport is tr and tr is not None:
                 return c
         return None
+
+    def _in_time(self, k):
+        """the caller's 30 s timer cannot have fired yet, it was not cancelled and the application did not close"""
+        return self.loop.time() < self.req_time.get(k, 0) + 30 - 1e-6 and not any(m[0] == "cancel" and m[1] == k for m in self.abandon_marks) and not self.app_closed
 
     # ---- explorer interface
     def _events(self):
@@ -146,6 +154,8 @@ class H(explore.Harness):
         for k, t in self.tasks.items():
             if not t.done():
                 ev.append(f"cancel:{k}")
+        if not self.app_closed and any(not t.done() for t in self.tasks.values()) and not self.secure:
+            ev.append("app-close")  # the application closes the connection while requests are waiting
         return ev
 
     def menu(self):
@@ -178,20 +188,30 @@ class H(explore.Harness):
         if kind == "req":
             k = int(arg)
             self.tasks[k] = self.loop.create_task(self.conn.request("GET", f"/r{k}"))
+            self.req_time[k] = self.loop.time()
         elif kind in ("deliver", "deliver-split"):
             c = self.net.conns[int(arg)]
             tag = self.responder[c.cid].pop(0)
             wire = self._wire(c, ipacc.http_response(200, f"{c.cid}:{tag}".encode(), "text/plain"))
+            live = not c.transport.is_closing()
+            caller = self.tasks.get(int(tag)) if tag.isdigit() else None
             if kind == "deliver":
                 c.send(wire)
+                if live and caller is not None and not caller.done() and self._in_time(int(tag)):
+                    self.expect_ok[int(tag)] = f"{c.cid}:{tag}"
             else:
-                h = len(wire) // 2
-                self.partial = (c, wire[h:])
+                # secure: a read holding a complete block and part of the next one; insecure: the middle of the message
+                h = (len(wire) * 3) // 4 if self.secure else len(wire) // 2
+                self.partial = (c, wire[h:], tag)
                 c.send(wire[:h])
         elif kind == "deliver-rest":
-            c, rest = self.partial
+            c, rest, tag = self.partial
             self.partial = None
+            live = not c.transport.is_closing()
+            caller = self.tasks.get(int(tag)) if tag.isdigit() else None
             c.send(rest)
+            if live and caller is not None and not caller.done() and self._in_time(int(tag)):
+                self.expect_ok[int(tag)] = f"{c.cid}:{tag}"
         elif kind == "unsolicited":
             c = self.net.conns[int(arg)]
             c.send(self._wire(c, ipacc.http_response(200, f"{c.cid}:U".encode(), "text/plain")))
@@ -207,6 +227,9 @@ class H(explore.Harness):
             c = self.net.conns[int(arg)]
             c.peer_reset()
             self.partial = None if self.partial and self.partial[0] is c else self.partial
+        elif kind == "app-close":
+            self.app_closed = True
+            self.loop.create_task(self.conn.close())
         elif kind == "cancel":
             k = int(arg)
             self.tasks[k].cancel()
@@ -234,6 +257,23 @@ class H(explore.Harness):
                     self.viol.append(("response-from-a-connection-the-request-was-not-sent-on", {"caller": k, "got": body, "sent_on": self.sent_on.get(str(k))}))
             elif not isinstance(exc, AccessoryDisconnectedError):
                 self.viol.append((f"request-failed-with-{type(exc).__name__}-not-disconnection-error", {"caller": k, "err": str(exc)[:200]}))
+        if not self.loop.has_ready():
+            # (a) the accessory's complete response was delivered on a live connection to a caller that was still waiting: it must have it now
+            for k, body in list(self.expect_ok.items()):
+                t = self.tasks[k]
+                del self.expect_ok[k]
+                if not t.done():
+                    self.viol.append(("response-delivered-but-request-still-pending", {"caller": k}))
+                elif t.cancelled() or t.exception() is not None:
+                    if not any(m[0] == "cancel" and m[1] == k for m in self.abandon_marks):
+                        self.viol.append(("response-delivered-but-request-failed", {"caller": k, "err": repr(t.exception())[:120] if not t.cancelled() else "cancelled"}))
+            # (b) promptness: once a connection is abandoned (closed by the controller) or dropped, nothing written on it may still be waiting
+            for k, t in self.tasks.items():
+                if t.done() or str(k) not in self.sent_on:
+                    continue
+                c = self.net.conns[self.sent_on[str(k)]]
+                if not c.client_open or not c.peer_open or (c.transport is not None and c.transport.is_closing()):
+                    self.viol.append(("outstanding-request-not-failed-promptly-after-connection-abandoned-or-dropped", {"caller": k, "cid": c.cid, "client_open": c.client_open, "peer_open": c.peer_open}))
         evs = self._seen_events()
         if len(evs) != len(set(evs)):
             self.viol.append(("event-delivered-twice", {"events": evs}))
@@ -372,6 +412,6 @@ def run(ctx):
     ctx.bounds.update(depth=depth, configs=configs)
     ctx.pmap(_work, work)
     ctx.exhaustive = not ctx.acc.capped
-    for s in ("req", "deliver", "deliver-split", "event", "cancel", "timer", "peer-close", "peer-reset", "unsolicited", "run1"):
+    for s in ("req", "deliver", "deliver-split", "deliver-rest", "event", "cancel", "timer", "peer-close", "peer-reset", "unsolicited", "run1", "app-close"):
         ctx.require(ctx.acc.symbols[s] > 0, f"event {s} never enabled")
     ctx.require(len(ctx.acc.outcomes) >= 4, "too few distinct outcomes")
